@@ -109,7 +109,10 @@ MonStep ==
              LET g1 == LC(ln.op, ln.a, ln.b)
                  x0 == IF ln.depth = 0 THEN NewCall(ln.op, ln.a, ln.b) ELSE ob
                  tg == IF ln.op = "DropRoot" THEN ln.a ELSE ln.b
-                 x1 == IF ln.op \in DropOps /\ ln.depth = 0 THEN DropObs(x0, g1, tg) ELSE x0
+                 x1 == IF ln.op \in DropOps
+                       THEN (IF ln.depth = 0 THEN DropObs(x0, g1, tg)
+                             ELSE [x0 EXCEPT !.must = @ \cup Demand(g1, x0, tg)])
+                       ELSE x0
              IN /\ heap' = HeapOf(ln.obs)
                 /\ led' = g1
                 /\ ob' = ObsInto(x1, ln.obs)
@@ -145,7 +148,9 @@ MonStep ==
              /\ heap' = HeapOf(ln.obs)
              /\ led' = IF ln.kind = "S" THEN [led EXCEPT !.valS[ln.a][ln.b] = @ - 1]
                        ELSE [led EXCEPT !.valW[ln.a][ln.b] = @ - 1]
-             /\ ob' = ObsInto(ob, ln.obs)
+             /\ ob' = IF ln.kind = "S"
+                      THEN [ObsInto(ob, ln.obs) EXCEPT !.must = @ \cup Demand(led', ob, ln.b)]
+                      ELSE ObsInto(ob, ln.obs)
              /\ ctl' = [stack |-> LibFrame, mode |-> "run"]
              /\ sn' = sn
      /\ viol' = viol \cup
@@ -170,8 +175,7 @@ HeapMatches(h, x, obs) ==
        /\ r.mem = "alloc" =>
             /\ h.strong[i] = r.strong /\ h.weak[i] = r.weak
             /\ h.vinit[i] = r.vinit /\ h.linit[i] = r.linit
-            /\ h.tbl[i] = r.tbl
-            /\ r.linit => h.links[i] = LinksOf(r)
+            /\ r.linit => h.tbl[i] = r.tbl /\ h.links[i] = LinksOf(r)
        /\ x.nd[i] = r.nd /\ x.nf[i] = r.nf
   /\ (x.ub = {}) = (Len(obs.ub) = 0)
 
